@@ -11,7 +11,7 @@ import (
 
 // interactive grammar: commands with arguments, option lines, noise
 var interactiveLines = []string{
-	"top", "top 5 a", "top -b", "top10", "top -cum 3", "tree a", "peek (", "peek", "list", "list .", "weblist a", "disasm a", "traces", "tags k", "dot", "callgrind", "raw", "proto", "topproto", "comments",
+	"top", "top 5 a", "top -b", "top10", "top -cum 3", "tree a", "peek (", "peek", "list", "list .", "weblist a", "disasm a", "weblist 0x8040", "list 0x1010", "traces", "tags k", "dot", "callgrind", "raw", "proto", "topproto", "comments",
 	"focus=(", "focus=a", "ignore=*", "hide=[", "tagfocus=99999999999999999999", "tagfocus=1:2:3", "tagignore=k=", "show_from=(", "prune_from=\\",
 	"nodecount=abc", "nodecount=-1", "nodefraction=x", "divide_by=0", "sample_index=99", "sample_index=", "sample_index=t", "unit=nope", "granularity=nope", "sort=nope",
 	"mean", "mean=2", "call_tree=maybe", "lines", "files=false", "addresses", "o", "options", "help", "help top", "help nope", "nope", "", " ", "=", "a=b", "top >", "top > ", "top >/nonexistent-dir/x", ":", "::",
